@@ -14,6 +14,7 @@ import (
 	"go4.org/jsonconfig"
 	"perkeep.org/pkg/blob"
 	"perkeep.org/pkg/blobserver"
+	"perkeep.org/pkg/blobserver/files"
 	"perkeep.org/pkg/blobserver/memory"
 	"pgregory.net/rapid"
 
@@ -132,7 +133,7 @@ func (n *Node) caps() Caps {
 		c.Persistent = false
 	case "memcache":
 		c.Persistent = false
-	case "verif", "localdisk", "diskpacked":
+	case "verif", "localdisk", "diskpacked", "filesvfs":
 	case "encrypt":
 		kc0, kc1 := n.Kids[0].caps(), n.Kids[1].caps()
 		c.Remove = false
@@ -169,11 +170,11 @@ func (n *Node) caps() Caps {
 // ---------------------------------------------------------------------------
 // generation
 
-var allLeafTypes = []string{"memory", "verif", "localdisk", "diskpacked"}
+var allLeafTypes = []string{"memory", "verif", "localdisk", "diskpacked", "filesvfs"}
 
 // LeafTypes is the set of leaf backends GenTree draws from (a check may narrow
 // it, e.g. to the fault-injectable ones, before generating).
-var LeafTypes = allLeafTypes
+var LeafTypes = allLeafTypes[:4]
 
 func genLeaf(t *rapid.T, persistentOnly bool) *Node {
 	types := LeafTypes
@@ -378,6 +379,13 @@ func (b *Built) create(ld *loader, n *Node) (blobserver.Storage, error) {
 			return nil, err
 		}
 		conf = jsonconfig.Obj{"path": d}
+	case "filesvfs":
+		// the file-per-blob store over a fault-injectable view of the host file system
+		d := filepath.Join(b.Dir, fmt.Sprintf("n%d-filesvfs", n.id))
+		if err := os.MkdirAll(d, 0o755); err != nil {
+			return nil, err
+		}
+		return files.NewStorage(vstore.NewFaultFS(b.Env, fmt.Sprintf("n%d", n.id), files.OSFS(), d), d), nil
 	case "diskpacked":
 		d := filepath.Join(b.Dir, fmt.Sprintf("n%d-diskpacked", n.id))
 		if err := os.MkdirAll(d, 0o755); err != nil {
